@@ -1171,12 +1171,21 @@ def check_gen_determinism(prop, tier, seed, repo, keep):
         for s in chosen[:8] if tier == 'quick' else chosen:
             req = open(os.path.join(reqdir, s['name'] + '.req'), 'rb').read()
             for name, exe, env, cwd, needles in perturb:
-                out = runp(req, exe=exe, env=env, cwd=cwd)
+                try:
+                    out = runp(req, exe=exe, env=env, cwd=cwd)
+                except Broken as e:
+                    # the plugin works on this request in the plain environment: failing under the perturbation is a difference
+                    viol.append(dict(prop='C13', key='gen/environment-dependent/' + name, type=s['name'],
+                                     detail='request %s: the plugin fails under perturbation %r although it succeeds without it: %s' % (s['name'], name, str(e)[:600]),
+                                     replay=dict(engine='gen13', set=s['name'], perturbation=name, seed=seed)))
+                    evals += 1
+                    continue
                 evals += 1
                 distinct.add('perturb|%s|%s' % (name, s['name']))
                 counters['perturbation-' + name] = counters.get('perturbation-' + name, 0) + 1
                 if out != base[s['name']]:
-                    fa, fb = files_of(base[s['name']], 'a'), files_of(out, 'b')
+                    fa, db = files_of(base[s['name']], 'a'), decode_response(w, out, 'b')
+                    fb = {f['name']: f['content'] for f in db.get('files') or []}
                     where = [n for n in fa if fa.get(n) != fb.get(n)]
                     viol.append(dict(prop='C13', key='gen/environment-dependent/' + name, type=s['name'],
                                      detail='request %s: output differs under perturbation %r: %s' % (s['name'], name, first_diff(fa[where[0]], fb.get(where[0], '')) if where else 'framing'),
